@@ -86,8 +86,19 @@ def run(ctx, prove=True):
     ctx.rule = ("every k-th dialect fixture (k by tier, offset by seed), deterministic truncations, literal corner inputs, generated jinja "
                 "templates and generated SQL; each real tree serialised and checked by Lean's specC03; non-trivial = tree with >= 1 indent marker "
                 "and >= 10 nodes; distinct by (dialect, text)")
+    # stage 2: the grammar itself. Regenerate the indent skeleton of every library entry of every dialect; Lean's kernel re-checks
+    # that each row is neutral, the general theorem lifts that to every complete match. Entries that are not neutral must be listed.
+    from translate import grammar_balance
+    ginfo = grammar_balance.generate()
+    ctx.extra["grammar_skeletons"] = {"dialects": len(ginfo["dialects"]), "entries": sum(v["entries"] for v in ginfo["dialects"].values()),
+                                      "entries_with_metas": sum(v["with_metas"] for v in ginfo["dialects"].values()), "distinct_rows": ginfo["rows"],
+                                      "fragments_inlined": ginfo["fragments"], "not_neutral": ginfo["findings"], "conditional_rules": ginfo["conds"]}
+    for (d, entry) in ginfo["findings"]:
+        new = ctx.violation("the grammar of %s.%s can leave the indentation markers unbalanced (static analysis of its Indent/Dedent/Conditional metas)" % (d, entry),
+                            {"dialect": d, "grammar_entry": entry}, key="grammar-static:%s:%s" % (d, entry))
     if prove:
-        ctx.prove(["SqlfluffVerif.Props.C03"], ["Props/C03.lean"])
+        ctx.prove(["SqlfluffVerif.Props.C03", "SqlfluffVerif.Props.C03b", "SqlfluffVerif.Gen.GrammarSkel"], ["Props/C03.lean", "Props/C03b.lean"], ["Gen/GrammarSkel.lean"])
+    ctx.trusted += ["harness/translate/grammar_balance.py (translator: grammar objects -> indent skeletons; a grammar without metas is abstracted to `leaf`)"]
     ctx.partial += ["balance of what the grammars emit is checked on real trees (spec evaluation), not yet proved from the grammar definitions",
                     "partial-match returns of Sequence.match are a known finding (attributed by instrumentation)"]
     partial = {"n": 0}
